@@ -62,9 +62,11 @@ KINDS = ['assign', 'emit', 'val', 'str', 'for', 'def', 'call', 'if', 'raise', 'r
          'raise_group', 'raise_chained', 'raise_nomsg', 'blank_run', 'blank_edges', 'oneline_for', 'oneline_raise',
          'oneline_ied', 'oneline_silent', 'two_options_ws', 'skip_two_options_ws', 'echo_then_comment',
          'semi_echo_comment', 'comment_then_echo', 'option_on_continuation', 'skip_comment_first',
-         'marker_text', 'marker_midline', 'marker_midline_blank', 'skip_behind_blank', 'ied_behind_blank']
+         'marker_text', 'marker_midline', 'marker_midline_blank', 'skip_behind_blank', 'ied_behind_blank',
+         'oneline_echo', 'oneline_if_echo', 'oneline_with_echo']
 # compound statements written on one line: the interactive interpreter wants a bare '...' line behind them
-ONELINE = ('oneline_for', 'oneline_raise', 'oneline_ied', 'oneline_silent')
+ONELINE = ('oneline_for', 'oneline_raise', 'oneline_ied', 'oneline_silent', 'oneline_echo', 'oneline_if_echo',
+           'oneline_with_echo')
 
 
 def required_cells(tier):
@@ -188,6 +190,13 @@ def gen_example(rng, i, defined):
         src = ['for k in range(3): boom(%d, "m%d")' % (i, i)]
     elif k == 'oneline_ied':
         src = ['if True: boom(%d, "detail%d")  # doctest: +IGNORE_EXCEPTION_DETAIL' % (i, i)]
+    elif k == 'oneline_echo':
+        # the body of a compound statement written on one line is an expression: the interactive interpreter shows its value
+        src = ['for k in range(2): val(%d)' % i]
+    elif k == 'oneline_if_echo':
+        src = ['if True: val(%d)' % i]
+    elif k == 'oneline_with_echo':
+        src = ['with open(__import__("os").devnull) as fh: val(%d)' % i]
     elif k == 'oneline_silent':
         src = ['for k in range(2): T.append(%d)' % i]
     elif k == 'try':
